@@ -30,6 +30,7 @@ import (
 )
 
 type replayRecipe struct {
+	terms          map[string]string // parameter name -> SMT term to read instead of the constant p_<name>
 	params         [][2]string
 	file, pkg, run string
 	text           string
@@ -49,7 +50,17 @@ func loadRecipe(fkey string) *replayRecipe {
 			for _, f := range strings.Fields(strings.TrimPrefix(l, "// PARAMS:")) {
 				kv := strings.SplitN(f, ":", 2)
 				if len(kv) == 2 {
-					r.params = append(r.params, [2]string{kv[0], kv[1]})
+					kind, term := kv[1], ""
+					if i := strings.Index(kind, "@"); i >= 0 {
+						kind, term = kind[:i], strings.ReplaceAll(kind[i+1:], "~", " ") // "~" stands for a blank inside the term
+					}
+					r.params = append(r.params, [2]string{kv[0], kind})
+					if term != "" {
+						if r.terms == nil {
+							r.terms = map[string]string{}
+						}
+						r.terms[kv[0]] = term
+					}
 				}
 			}
 		case strings.HasPrefix(l, "// FILE:"):
@@ -89,10 +100,31 @@ func candidateQuery(vc *VC, o *Obligation, r *replayRecipe, block []string) (str
 		b.WriteString(l)
 		b.WriteByte('\n')
 	}
+	// "prefix*" inside an explicit term stands for the first declared constant with that prefix (the names of
+	// intermediate heap versions carry a running number)
+	for name, t := range r.terms {
+		for strings.Contains(t, "*") {
+			i := strings.Index(t, "*")
+			j := strings.LastIndexAny(t[:i], " (") + 1
+			prefix := t[j:i]
+			best := ""
+			for _, l := range strings.Split(full, "\n") {
+				if strings.HasPrefix(l, "(declare-const "+prefix) {
+					best = strings.Fields(strings.NewReplacer("(", " ", ")", " ").Replace(l))[1]
+					break
+				}
+			}
+			if best == "" {
+				best = prefix + "_missing"
+			}
+			t = t[:j] + best + t[i+1:]
+		}
+		r.terms[name] = t
+	}
 	var terms []string
 	for _, pr := range r.params {
-		c := "p_" + pr[0]
-		if !declared[c] {
+		c := r.termOf(pr[0])
+		if _, override := r.terms[pr[0]]; !override && !declared[c] {
 			continue
 		}
 		switch pr[1] {
@@ -227,7 +259,7 @@ func (p *Program) replay(dir string, o *Obligation, it *OblResult, model, reason
 		ok := true
 		var differ []string
 		for _, pr := range r.params {
-			lit, have := goLiteral(pr[1], "p_"+pr[0], vals)
+			lit, have := goLiteral(pr[1], r.termOf(pr[0]), vals)
 			if !have {
 				// parameter not constrained by the query: a neutral value
 				lit = map[string]string{"int": "0", "bool": "false", "string": `""`, "bytes": "[]byte{}"}[pr[1]]
@@ -236,16 +268,16 @@ func (p *Program) replay(dir string, o *Obligation, it *OblResult, model, reason
 			text = strings.ReplaceAll(text, "{{"+pr[0]+"}}", lit)
 			switch pr[1] {
 			case "int":
-				if v, ok := vals["p_"+pr[0]]; ok {
-					differ = append(differ, fmt.Sprintf("(not (= p_%s %s))", pr[0], smtIntStr(v)))
+				if v, ok := vals[r.termOf(pr[0])]; ok {
+					differ = append(differ, fmt.Sprintf("(not (= %s %s))", r.termOf(pr[0]), smtIntStr(v)))
 				}
 			case "string":
-				if v, ok := vals["(slen p_"+pr[0]+")"]; ok {
-					differ = append(differ, fmt.Sprintf("(not (= (slen p_%s) %s))", pr[0], v))
+				if v, ok := vals["(slen "+r.termOf(pr[0])+")"]; ok {
+					differ = append(differ, fmt.Sprintf("(not (= (slen %s) %s))", r.termOf(pr[0]), v))
 				}
 			case "bytes":
-				if v, ok := vals["(s-len p_"+pr[0]+")"]; ok {
-					differ = append(differ, fmt.Sprintf("(not (= (s-len p_%s) %s))", pr[0], v))
+				if v, ok := vals["(s-len "+r.termOf(pr[0])+")"]; ok {
+					differ = append(differ, fmt.Sprintf("(not (= (s-len %s) %s))", r.termOf(pr[0]), v))
 				}
 			}
 		}
@@ -311,4 +343,11 @@ func smtIntStr(v string) string {
 		return "(- " + strings.TrimPrefix(v, "-") + ")"
 	}
 	return v
+}
+
+func (r *replayRecipe) termOf(name string) string {
+	if t, ok := r.terms[name]; ok {
+		return t
+	}
+	return "p_" + name
 }
